@@ -107,9 +107,22 @@ func (c *countingReaderAt) ReadAt(p []byte, off int64) (int, error) {
 	return n, err
 }
 
+// countingSizeReaderAt keeps the Size method of the reader it wraps (a wrapper must not hide what
+// the library may look for on the caller's reader).
+type countingSizeReaderAt struct {
+	*countingReaderAt
+	sz interface{ Size() int64 }
+}
+
+func (c countingSizeReaderAt) Size() int64 { return c.sz.Size() }
+
 func c13DriveImageVia(r0 io.ReaderAt) {
 	size, _ := io.Copy(io.Discard, io.NewSectionReader(r0, 0, 1<<62))
-	r := &countingReaderAt{r: r0, limit: 64*size + 1<<20}
+	cr := &countingReaderAt{r: r0, limit: 64*size + 1<<20}
+	var r io.ReaderAt = cr
+	if sz, ok := r0.(interface{ Size() int64 }); ok {
+		r = countingSizeReaderAt{cr, sz}
+	}
 	p, err := authenticode.Parse(r)
 	if err != nil {
 		return
@@ -277,6 +290,24 @@ func c13Run(c *hx.Ctx, tier, unit string) {
 	case "pairs":
 		img := findSeed(parts[1])
 		shard, _ := strconv.Atoi(parts[2])
+		if shard == 0 {
+			// a signed file cut short by k bytes with the directory size lowered by k: the table stays
+			// consistent with the file but its last entry loses (part of) its padding or its tail
+			if im, err := refpe.Parse(img); err == nil && im.CertSize != 0 {
+				for k := 1; k <= 24; k++ {
+					if int(im.CertSize) <= k {
+						break
+					}
+					x := append([]byte{}, img[:len(img)-k]...)
+					binary.LittleEndian.PutUint32(x[im.CertDirOff+4:], uint32(int(im.CertSize)-k))
+					robustRun(c, "C13", "image driver", "file cut by k bytes, certificate directory size lowered by k", x, func() { c13DriveImage(x) })
+					for _, rk := range readerKinds {
+						rk := rk
+						robustRun(c, "C13", "image driver via "+rk.name, "file cut by k bytes, certificate directory size lowered by k", x, func() { c13DriveImageVia(rk.mk(x)) })
+					}
+				}
+			}
+		}
 		fs := c13Fields(img)
 		n := 0
 		for i, f := range fs {
